@@ -24,7 +24,51 @@ Open Scope Z_scope.
    the responder and then calls it *)
 Inductive func := FUser (tag : nat) | FOneShot (inner : func).
 
-Inductive titem := TAny | TEq (v : oval) | TPred (p : oval -> bool).
+(* template items: None, a value (compared with Python ==), a callable whose result is taken by
+   truthiness; TPredX: a callable that may raise (None) *)
+Inductive titem := TAny | TEq (v : oval) | TPred (p : oval -> bool) | TPredX (p : oval -> option bool).
+
+(* Python == on the values a message can carry: int, bool and float compare numerically
+   (0 == 0.0 == False), NaN equals nothing, str/bytes/tuple/list only their own kind *)
+Definition f64_parts (w : Z) : option (Z * Z) :=          (* finite: value = fst * 2^snd *)
+  let s := Z.shiftr w 63 in
+  let e := Z.land (Z.shiftr w 52) 2047 in
+  let f := Z.land w 4503599627370495 in
+  if e =? 2047 then None
+  else let m := if e =? 0 then f else f + 4503599627370496 in
+       Some (if s =? 0 then m else - m, (if e =? 0 then 1 else e) - 1075).
+Definition num_of (v : oval) : option (Z * Z) :=
+  match v with
+  | VInt z => Some (z, 0)
+  | VBool b => Some (if b then 1 else 0, 0)
+  | VFloat w => f64_parts w
+  | _ => None
+  end.
+Definition num_eqb (a b : Z * Z) : bool :=
+  let lo := Z.min (snd a) (snd b) in
+  (fst a * 2 ^ (snd a - lo)) =? (fst b * 2 ^ (snd b - lo)).
+Fixpoint py_eqb (a b : oval) : bool :=
+  match a, b with
+  | VStr x, VStr y => list_eqb Z.eqb x y
+  | VBlob x, VBlob y => list_eqb Z.eqb x y
+  | VMidi x, VMidi y => list_eqb Z.eqb x y
+  | VArr x, VArr y =>
+    (fix go (l1 l2 : list oval) : bool :=
+       match l1, l2 with
+       | [], [] => true
+       | u :: l1', v :: l2' => py_eqb u v && go l1' l2'
+       | _, _ => false
+       end) x y
+  | _, _ =>
+    match num_of a, num_of b with
+    | Some x, Some y => num_eqb x y
+    | None, None => match a, b with
+                    | VFloat x, VFloat y => (x =? y) && negb (x =? nan64)     (* inf == inf, nan != nan *)
+                    | _, _ => false
+                    end
+    | _, _ => false
+    end
+  end.
 
 Record responder := {
   r_path : list Z;                       (* after OscFunc.__init__ added the leading '/' *)
@@ -135,11 +179,15 @@ Definition one_shot (st : dstate) (id : nat) : dstate :=
 
 Definition create (st : dstate) (path : list Z) (matching : bool) (src : option (Z * option Z))
            (port : option Z) (tmpl : option (list titem)) (tag : nat) : dstate :=
-  let path' := match path with c :: _ => if c =? ch_slash then path else ch_slash :: path | [] => path end in
-  let r := {| r_path := path'; r_matching := matching; r_src := src; r_port := port; r_tmpl := tmpl;
-              r_func := FUser tag; r_enabled := false |} in
-  let id := length (resps st) in
-  enable {| resps := resps st ++ [r]; act_exact := act_exact st; act_match := act_match st; cmdp := cmdp st |} id.
+  match path with
+  | [] => st                                   (* path[0] raises IndexError: no responder *)
+  | c :: _ =>
+    let path' := if c =? ch_slash then path else ch_slash :: path in
+    let r := {| r_path := path'; r_matching := matching; r_src := src; r_port := port; r_tmpl := tmpl;
+                r_func := FUser tag; r_enabled := false |} in
+    let id := length (resps st) in
+    enable {| resps := resps st ++ [r]; act_exact := act_exact st; act_match := act_match st; cmdp := cmdp st |} id
+  end.
 
 (* CmdPeriod.run: for action in _actions.copy(): if still registered: action() -- each is free() *)
 Definition cmd_period (st : dstate) : dstate :=
@@ -157,8 +205,9 @@ Fixpoint tmpl_accepts (tm : list titem) (args : list oval) : bool :=
     match it, args with
     | TAny, _ => tmpl_accepts tm' (tl args)
     | _, [] => false
-    | TEq v, a :: args' => oval_eqb v a && tmpl_accepts tm' args'
+    | TEq v, a :: args' => py_eqb v a && tmpl_accepts tm' args'
     | TPred p, a :: args' => p a && tmpl_accepts tm' args'
+    | TPredX p, a :: args' => match p a with Some true => tmpl_accepts tm' args' | _ => false end
     end
   end.
 
@@ -292,8 +341,9 @@ Fixpoint tmpl_orig (tm : list titem) (args : list oval) : tres :=
     match it, args with
     | TAny, _ => tmpl_orig tm' (tl args)
     | _, [] => TRaise
-    | TEq v, a :: args' => if oval_eqb v a then tmpl_orig tm' args' else TReject
+    | TEq v, a :: args' => if py_eqb v a then tmpl_orig tm' args' else TReject
     | TPred p, a :: args' => if p a then tmpl_orig tm' args' else TReject
+    | TPredX p, a :: args' => match p a with Some true => tmpl_orig tm' args' | Some false => TReject | None => TRaise end
     end
   end.
 
